@@ -11,7 +11,8 @@ database method is called, and which argument lands in which parameter, is read 
   * positional and keyword arguments are bound to the parameter NAMES of the database method as database.py declares them;
     a parameter left unbound takes its declared default (None / True / False only).
 
-Anything else is refused (exit 3; the hand-written table of Prop_C10.v stands in and the check reports the refusal).
+Anything else is refused (exit 3; the hand-written table DB.restrict stands in and the check reports the refusal in its
+evidence: the tie is then the correspondence check alone).
 The generated `forward name h : option op` is proved equal to the model's forwarding in proofs/HandleGenP.v.
 
 Usage: py2coq_handle.py <path/to/tinyflux> <out.v>
@@ -28,7 +29,12 @@ UPD = ["time", "measurement", "tags", "fields", "unset_fields", "unset_tags"]
 UPD_PROJ = {"time": "u_time", "measurement": "u_meas", "tags": "u_tags", "fields": "u_fields", "unset_fields": "u_unset_fields", "unset_tags": "u_unset_tags"}
 
 # Measurement method -> (hop pattern, [(parameter, binder or "U", declared default or NODEF)])
-NODEF = object()
+class _NoDefault:
+    def __repr__(self):
+        return "<required>"
+
+
+NODEF = _NoDefault()
 M_METHODS = {
     "contains": ("HContains q", [("query", "q", NODEF)]),
     "count": ("HCount q", [("query", "q", NODEF)]),
@@ -237,9 +243,10 @@ def generate(pkg):
     return text, targets
 
 
-FALLBACK = """(* REFUSED by the translator: %s - nothing is generated; proofs/HandleGenP.v cannot be checked against the source *)
-Definition forward (name : str) (h : hop) : option op := None.
-Definition forward_insert_multiple (name : str) (ps : list (option point)) : op := Insert ps None.
+FALLBACK = """(* REFUSED by the translator: %s - the hand-written table stands in (the check reports the refusal;
+   the tie is then the correspondence check alone) *)
+Definition forward (name : str) (h : hop) : option op := restrict name h.
+Definition forward_insert_multiple (name : str) (ps : list (option point)) : op := Insert ps (Some name).
 """
 
 
